@@ -111,6 +111,18 @@ def build(targets):
     return rc == 0, out
 
 
+def merge_counts(a, b):
+    """sum two nested dictionaries of counts (input distributions computed chunk by chunk)"""
+    if isinstance(a, dict) and isinstance(b, dict):
+        out = dict(a)
+        for k, v in b.items():
+            out[k] = merge_counts(out[k], v) if k in out else v
+        return out
+    if isinstance(a, (int, float)) and isinstance(b, (int, float)) and not isinstance(a, bool):
+        return a + b
+    return b if a is None else a
+
+
 def import_closure(modules):
     """the project modules (Anytree.*) a list of modules imports, transitively, themselves included"""
     seen, todo = [], list(modules)
